@@ -348,6 +348,20 @@ fn rvalue_json<'tcx>(
         Rvalue::Discriminant(p) => {
             o.put("k", J::s("discr"));
             o.put("p", place_json(tcx, body, p));
+            let pt = p.ty(&body.local_decls, tcx).ty;
+            if let ty::Adt(def, _) = pt.kind() {
+                if def.is_enum() {
+                    o.put("enum", J::s(tcx.def_path_str(def.did())));
+                    let mut vs = Vec::new();
+                    for (vi, dv) in def.discriminants(tcx) {
+                        vs.push(J::Arr(vec![
+                            J::s(def.variant(vi).name.to_string()),
+                            J::Int(dv.val as i128),
+                        ]));
+                    }
+                    o.put("variants", J::Arr(vs));
+                }
+            }
         }
         Rvalue::Aggregate(kind, fields) => {
             o.put("k", J::s("aggregate"));
@@ -358,6 +372,11 @@ fn rvalue_json<'tcx>(
                     let def = tcx.adt_def(*did);
                     let v = def.variant(*vi);
                     o.put("variant", J::s(v.name.to_string()));
+                    o.put("vi", J::Int(vi.as_usize() as i128));
+                    if def.is_enum() {
+                        let dv = def.discriminant_for_variant(tcx, *vi);
+                        o.put("discr", J::Int(dv.val as i128));
+                    }
                     let names: Vec<J> =
                         v.fields.iter().map(|f| J::s(f.name.to_string())).collect();
                     o.put("field_names", J::Arr(names));
